@@ -137,7 +137,7 @@ impl Property for C20 {
     fn params(&self, tier: Tier) -> Params {
         Params {
             cases: match tier {
-                Tier::Quick => 32,
+                Tier::Quick => 96,
                 Tier::Thorough => 1_500,
             },
             max_bytes: 64,
